@@ -153,10 +153,10 @@ func C06(sp *spec.Spec, ex *rt.Exchange) *Verdict {
 				break
 			}
 			if (hasU && ev.Creds[0] != u) || (!hasU && ev.Creds[0] != "") {
-				v.add(fmt.Sprintf("auth-credential-altered:basic-user:%s:%s", locOfSec("username"), credClass(u)), "basic user: client supplied %q, callback received %q", u, ev.Creds[0])
+				v.add(fmt.Sprintf("auth-credential-altered:basic-user:%s", credClass(u)), "basic user: client supplied %q, callback received %q", u, ev.Creds[0])
 			}
 			if (hasP && ev.Creds[1] != p) || (!hasP && ev.Creds[1] != "") {
-				v.add(fmt.Sprintf("auth-credential-altered:basic-pass:%s:%s", locOfSec("password"), credClass(p)), "basic password: client supplied %q, callback received %q", p, ev.Creds[1])
+				v.add(fmt.Sprintf("auth-credential-altered:basic-pass:%s", credClass(p)), "basic password: client supplied %q, callback received %q", p, ev.Creds[1])
 			}
 		default:
 			sec := map[string]string{"jwt": "token", "oauth2": "accesstoken"}[sc.Kind]
@@ -181,7 +181,8 @@ func C06(sp *spec.Spec, ex *rt.Exchange) *Verdict {
 				okc = true
 			}
 			if !okc {
-				v.add(fmt.Sprintf("auth-credential-altered:%s:%s:%s", sc.Kind, locOfSec(sec), credClass(want)), "%s credential: client supplied %q, callback received %q", sc.Kind, want, got)
+				_ = locOfSec
+				v.add(fmt.Sprintf("auth-credential-altered:%s:%s", sc.Kind, credClass(want)), "%s credential: client supplied %q, callback received %q", sc.Kind, want, got)
 			}
 		}
 	}
